@@ -2,9 +2,10 @@
 
 Proof phase: Properties/C14.vo — on Model/Quota.v: for EVERY sequential RPC history count = |live docs|
 per tenant (hence never above the limit, never refused below it); on the interleaving model of the
-quota protocol: ANY two calls out of {Insert, BulkInsert, BulkLoadHnsw, Delete, BatchDelete} of one
-tenant keep |live| <= count <= limit at every instant and the count exact at quiescence, in every
-schedule (all five take the per-tenant quota mutex since /repo 3784711; the schedules on which the
+quota protocol: ANY NUMBER of concurrent calls out of {Insert, BulkInsert, BulkLoadHnsw, Delete,
+BatchDelete}, of one tenant (C14_many_calls) or of several (C14_many_tenants), keep
+count = |live| + reservations held inside the mutex, |live| <= count <= limit at every instant, the
+count exact whenever the mutex is free and when all calls have returned, in every schedule (all five take the per-tenant quota mutex since /repo 3784711; the schedules on which the
 protocol before that commit drifted are kept as Examples on the old protocol).
 Tie: harness/p/c14 drives the REAL kyrodb_server binary (harness/p/srv):
   (i)  seeded sequential scripts at the boundary (limit 1..3, second tenant on the same local ids,
@@ -21,7 +22,8 @@ import os
 import vlib
 
 THEOREMS = {"Properties.C14": ["C14_count_exact_seq", "C14_run_state", "C14_never_above_limit",
-                               "C14_never_refused_below_limit", "C14_pairs", "C14_pairs_cover_all_calls",
+                               "C14_never_refused_below_limit", "C14_many_calls", "C14_many_tenants", "C14_other_tenants_untouched",
+                               "C14_pairs", "C14_pairs_cover_all_calls", "C14_nonvacuous_many_calls",
                                "C14_old_protocol_overwrite_delete_drift", "C14_old_protocol_bulk_insert_delete_drift",
                                "C14_old_protocol_bulk_load_overwrite_delete_drift", "C14_old_protocol_bulk_load_new_delete_drift",
                                "C14_old_protocol_insert_new_delete_drift", "C14_old_protocol_delete_batch_delete_drift",
@@ -31,6 +33,7 @@ PINS = {"Properties.C14": {
     "C14_count_exact_seq": "forall (cfg : qcfg) (es : list qev) (t : N), let s := qfinal cfg es in t_count (tget s t) = len (t_live (tget s t)) /\\ NoDup (t_live (tget s t))",
     "C14_never_above_limit": "forall (cfg : qcfg) (es : list qev) (t : N), len (t_live (tget (qfinal cfg es) t)) <= q_limit cfg t",
     "C14_never_refused_below_limit": "forall (cfg : qcfg) (es : list qev) (t : N) (it : qitem), item_admissible it = true -> let ts := tget (qfinal cfg es) t in (snd (handle cfg t ts (QInsert it)) = QErrExhausted <-> (mem (qi_id it) (t_live ts) = false /\\ len (t_live ts) = q_limit cfg t))",
+    "C14_many_calls": "forall (limit count : N) (live : list N) (ths : list thr) (sched : list nat), NoDup live -> count = len live -> count <= limit -> Forall fresh ths -> let c := mrun limit sched (mstart count live ths) in (sh_count (m_sh c) = len (sh_live (m_sh c)) + dsum (sh_live (m_sh c)) (m_ths c) /\\ len (sh_live (m_sh c)) <= sh_count (m_sh c) /\\ sh_count (m_sh c) <= limit /\\ NoDup (sh_live (m_sh c)) /\\ (forall j x, nth_error (m_ths c) j = Some x -> (gin_cs x = true <-> sh_mutex (m_sh c) = Some j)) /\\ (sh_mutex (m_sh c) = None -> sh_count (m_sh c) = len (sh_live (m_sh c)))) /\\ (mquiescent c = true -> sh_count (m_sh c) = len (sh_live (m_sh c)) /\\ sh_mutex (m_sh c) = None)",
     "C14_pairs": "forall (limit count : N) (live : list N) (a b : thr) (sched : list bool), NoDup live -> count = len live -> count <= limit -> fresh a -> fresh b -> let c := crun limit sched (cstart count live a b) in (final_live c <= final_count c /\\ final_count c <= limit /\\ NoDup (sh_live (c_sh c))) /\\ (quiescent c = true -> final_count c = final_live c /\\ sh_mutex (c_sh c) = None)",
     # `fresh` must keep covering all five call kinds of the CURRENT protocol
     "C14_pairs_cover_all_calls": "forall id ok rest items ids, fresh (TI (istart id ok)) /\\ fresh (TBI (istart id ok) rest) /\\ fresh (TL (lstart items)) /\\ fresh (TD (dstart id)) /\\ fresh (TB (bstart ids))",
